@@ -306,86 +306,104 @@ func (c *Ctx) c19Server(rel, name string) {
 		if h == nil || len(h.Blocks) == 0 || eng.FuncPkgPath(h) != eng.Mod+"/"+rel || donePredicate(h) {
 			return
 		}
+		// the places in h where shutdown has been observed: the ctx.Done() arm of a select, or
+		// the true edge of ctx.Err() != nil
+		type obs struct {
+			arm *ssa.BasicBlock
+			at  ssa.Instruction
+		}
+		var observed []obs
 		eng.EachInstr(h, func(hi ssa.Instruction) {
-			sel, isSel := hi.(*ssa.Select)
-			if !isSel {
-				return
-			}
-			i := isDoneSel(sel)
-			if i < 0 {
-				return
-			}
-			arm := eng.SelectArm(sel, i)
-			if arm == nil {
-				return
-			}
-			selSite = p.InstrPos(hi)
-			if eng.BlockReaches(arm, isNotifyI, nil) != nil || eng.BlockReaches(arm, isAccept, nil) != nil {
-				return
-			}
-			// the constant boolean results of the returns the arm reaches
-			consts := map[int]bool{}
-			conflict := false
-			nRet := 0
-			eng.BlockReaches(arm, func(x ssa.Instruction) bool {
-				ret, isRet := x.(*ssa.Return)
-				if !isRet {
-					return false
-				}
-				nRet++
-				for ri, rv := range eng.ReturnResults(ret) {
-					if b, isC := eng.ConstBool(rv); isC {
-						if old, has := consts[ri]; has && old != b {
-							conflict = true
-						}
-						consts[ri] = b
+			if sel, isSel := hi.(*ssa.Select); isSel {
+				if i := isDoneSel(sel); i >= 0 {
+					if arm := eng.SelectArm(sel, i); arm != nil {
+						observed = append(observed, obs{arm, hi})
 					}
 				}
-				return false
-			}, nil)
-			if nRet == 0 || conflict {
-				return
-			}
-			// back in serve: with those results the loop must end
-			quiet := false
-			if h.Signature.Results().Len() == 0 {
-				quiet = (&eng.Search{Target: isAccept}).After(hc) == nil
-			}
-			for ri, bv := range consts {
-				var ex ssa.Value
-				if h.Signature.Results().Len() == 1 && ri == 0 {
-					ex = hc
-				} else {
-					ex = extractOf(hc, ri)
-				}
-				if ex == nil {
-					continue
-				}
-				for _, b := range serve.Blocks {
-					for k := 0; k < len(b.Succs) && len(b.Succs) == 2; k++ {
-						v, pol, ok := eng.CondTruth(b, k)
-						if !ok || pol != bv {
-							continue
-						}
-						same := v == ex
-						for _, al := range eng.ValueAliases(ex) {
-							if v == al {
-								same = true
-							}
-						}
-						if !same || !eng.Dominates(hc, eng.IfOf(b)) {
-							continue
-						}
-						if eng.BlockReaches(b.Succs[k], isAccept, nil) == nil && eng.BlockReaches(b.Succs[k], isNotifyI, nil) == nil && eng.BlockReaches(b.Succs[k], eng.IsReturn, nil) != nil {
-							quiet = true
-						}
-					}
-				}
-			}
-			if quiet {
-				okArm = true
 			}
 		})
+		for _, b := range h.Blocks {
+			for k := 0; k < len(b.Succs) && len(b.Succs) == 2; k++ {
+				rel, ok := eng.EdgeRel(b, k)
+				if !ok || rel.Op != token.NEQ || !eng.IsNilConst(rel.Y) {
+					continue
+				}
+				if ec, ok := rel.X.(*ssa.Call); ok && ec.Call.IsInvoke() && ec.Call.Method.Name() == "Err" && ec.Call.Method.Pkg() != nil && ec.Call.Method.Pkg().Path() == "context" && len(b.Succs[k].Preds) == 1 {
+					observed = append(observed, obs{b.Succs[k], ec})
+				}
+			}
+		}
+		for _, ob := range observed {
+			arm, hi := ob.arm, ob.at
+			func() {
+				selSite = p.InstrPos(hi)
+				if eng.BlockReaches(arm, isNotifyI, nil) != nil || eng.BlockReaches(arm, isAccept, nil) != nil {
+					return
+				}
+				// the constant boolean results of the returns the arm reaches
+				consts := map[int]bool{}
+				conflict := false
+				nRet := 0
+				eng.BlockReaches(arm, func(x ssa.Instruction) bool {
+					ret, isRet := x.(*ssa.Return)
+					if !isRet {
+						return false
+					}
+					nRet++
+					for ri, rv := range eng.ReturnResults(ret) {
+						if b, isC := eng.ConstBool(rv); isC {
+							if old, has := consts[ri]; has && old != b {
+								conflict = true
+							}
+							consts[ri] = b
+						}
+					}
+					return false
+				}, nil)
+				if nRet == 0 || conflict {
+					return
+				}
+				// back in serve: with those results the loop must end
+				quiet := false
+				if h.Signature.Results().Len() == 0 {
+					quiet = (&eng.Search{Target: isAccept}).After(hc) == nil
+				}
+				for ri, bv := range consts {
+					var ex ssa.Value
+					if h.Signature.Results().Len() == 1 && ri == 0 {
+						ex = hc
+					} else {
+						ex = extractOf(hc, ri)
+					}
+					if ex == nil {
+						continue
+					}
+					for _, b := range serve.Blocks {
+						for k := 0; k < len(b.Succs) && len(b.Succs) == 2; k++ {
+							v, pol, ok := eng.CondTruth(b, k)
+							if !ok || pol != bv {
+								continue
+							}
+							same := v == ex
+							for _, al := range eng.ValueAliases(ex) {
+								if v == al {
+									same = true
+								}
+							}
+							if !same || !eng.Dominates(hc, eng.IfOf(b)) {
+								continue
+							}
+							if eng.BlockReaches(b.Succs[k], isAccept, nil) == nil && eng.BlockReaches(b.Succs[k], isNotifyI, nil) == nil && eng.BlockReaches(b.Succs[k], eng.IsReturn, nil) != nil {
+								quiet = true
+							}
+						}
+					}
+				}
+				if quiet {
+					okArm = true
+				}
+			}()
+		}
 	})
 	for _, da := range arms {
 		{
@@ -454,9 +472,44 @@ func (c *Ctx) c19Main() {
 		w := w
 		is := func(in ssa.Instruction) bool {
 			call, ok := in.(*ssa.Call)
-			return ok && eng.StaticCallee(call.Common()) == w.fn
+			if !ok {
+				return false
+			}
+			if eng.StaticCallee(call.Common()) == w.fn {
+				return true
+			}
+			// called through a function value (a table of shutdown steps holding method
+			// values): the call graph resolves the site
+			if eng.StaticCallee(call.Common()) == nil && !call.Call.IsInvoke() {
+				for _, g := range p.Callees(call) {
+					if eng.UnwrapBound(g) == w.fn {
+						return true
+					}
+				}
+			}
+			return false
 		}
-		if ret := (&eng.Search{Target: eng.IsReturnOf(mainFn), Avoid: is, Deep: true}).After(startCall); ret != nil {
+		// through helpers of the main package (drainServices(services)); loops over a literal
+		// table of shutdown steps are known to run
+		busyH := map[*ssa.Function]bool{}
+		var isOrVia func(in ssa.Instruction) bool
+		isOrVia = func(in ssa.Instruction) bool {
+			if is(in) {
+				return true
+			}
+			call, ok := in.(*ssa.Call)
+			if !ok {
+				return false
+			}
+			g := eng.StaticCallee(call.Common())
+			if g == nil || len(g.Blocks) == 0 || eng.FuncPkgPath(g) != eng.FuncPkgPath(mainFn) || busyH[g] || len(busyH) > 3 {
+				return false
+			}
+			busyH[g] = true
+			defer delete(busyH, g)
+			return eng.ReachPhiAwareFromEntry(g, eng.IsReturnOf(g), isOrVia) == nil
+		}
+		if ret := eng.ReachPhiAware(startCall, eng.IsReturnOf(mainFn), isOrVia); ret != nil {
 			r.Bad("C19/DRAIN", "main:"+w.name, p.InstrPos(ret), "main can return without calling %s after the services were started: the process exits under open sessions", w.name)
 		} else {
 			r.Ok("C19/DRAIN", "main:"+w.name, p.InstrPos(startCall), "every path from services.Start to return calls %s", w.name)
